@@ -251,6 +251,13 @@ Theorem C14_is_uuid_like_iff : forall lim s,
 Proof. exact is_uuid_like_iff. Qed.
 Print Assumptions C14_is_uuid_like_iff.
 
+(* equivalently: uuid.UUID's own removal — every 'urn:' and 'uuid:' wherever it stands, braces at both ends, every
+   hyphen — leaves 32 hex digits of any case; so every order, nesting and repetition of the decorations is accepted *)
+Theorem C14_is_uuid_like_iff_strip : forall lim s,
+  is_uuid_like lim (PStr s) = Ok true <-> hexdigits32 (uuid_strip s) = true.
+Proof. exact is_uuid_like_iff_strip. Qed.
+Print Assumptions C14_is_uuid_like_iff_strip.
+
 (* never raises; non-strings are rejected *)
 Theorem C14_is_uuid_like_total : forall lim v,
   (is_uuid_like lim v = Ok true \/ is_uuid_like lim v = Ok false) /\
